@@ -34,6 +34,7 @@ NCPU = os.cpu_count() or 4
 sys.path.insert(0, ROOT)
 sys.path.insert(0, os.path.join(ROOT, "tools"))
 import extract_consts  # noqa: E402
+import proto2lean  # noqa: E402
 
 
 def env_offline():
@@ -98,6 +99,13 @@ def proof_stage(plug, tier, log):
     for m in missing:
         if plug.ID in m["props"]:
             problems.append(f"constant anchor lost: {m['name']} in {m['file']}: {m['error']}")
+    # the protobuf schemas of the wire model are re-translated from /repo's .proto files on every run; a property
+    # whose import cone contains the generated files depends on the translation succeeding
+    proto_info, proto_err = proto2lean.generate()
+    uses_proto = any(os.path.normpath(f) in (os.path.normpath(proto2lean.OUT_SCHEMAS), os.path.normpath(proto2lean.OUT_SIZES),
+                                             os.path.normpath(proto2lean.OUT_ROUNDTRIP)) for f in lean_cone(plug.LEAN_PROPS))
+    if proto_err and uses_proto:
+        problems.append("schema translation (.proto → Lean) failed: " + proto_err)
     mods = [plug.LEAN_PROPS]
     if tier == "thorough":
         # rebuild the property's own import cone from clean
@@ -162,7 +170,8 @@ def proof_stage(plug, tier, log):
             problems.append("leanchecker rejected " + plug.LEAN_PROPS)
     return {"ok": not problems, "obligations": len(plug.THEOREMS), "discharged": discharged,
             "axioms": axioms, "problems": problems, "consts": vals, "statement_hashes": hashes,
-            "leanchecker_rc": checker, "wall_s": round(time.time() - t0, 2)}
+            "leanchecker_rc": checker, "wall_s": round(time.time() - t0, 2),
+            "schemas": ({"error": proto_err} if proto_err else proto_info) if uses_proto else None}
 
 
 # ------------------------------------------------------------------ tie stage
@@ -495,6 +504,7 @@ def check(pid, tier, seed):
             "theorems": {t: pr["axioms"].get(t) for t in plug.THEOREMS},
             "statement_hashes": pr["statement_hashes"],
             "generated_consts": {k: v for k, v in pr["consts"].items() if k in getattr(plug, "CONSTS", [])},
+            "translated_schemas": pr.get("schemas"),
             "leanchecker_rc": pr["leanchecker_rc"],
             "proof_problems": pr["problems"],
             "evaluations": len(cases), "distinct_nontrivial": len(nontrivial),
@@ -607,6 +617,9 @@ def gen_main():
 def setup():
     gen_main()
     extract_consts.generate()
+    _, proto_err = proto2lean.generate()
+    if proto_err:
+        print("schema translation failed:", proto_err)
     rc, so, se = sh(["lake", "build"], cwd=LEAN, timeout=7200)
     sys.stdout.write(so[-3000:] + se[-3000:])
     if rc != 0:
